@@ -170,6 +170,13 @@ class Consumer:
     def get_watermark_offsets(self, tp, timeout=None, cached=False):
         if tp.partition >= len(self.b.logs):
             raise KafkaException('unknown partition')
+        if timeout is not None:
+            # the polling loop's look-ups (short timeout); the one made by start() has none
+            k = getattr(self.b, 'n_wm', 0)
+            self.b.n_wm = k + 1
+            if k in getattr(self.b, 'wm_fail_at', ()):
+                self.b.note('watermark_failed', tp.partition)
+                raise KafkaException('transient failure (timeout) fetching the watermarks of partition %d' % tp.partition)
         lo, hi = self.b.low[tp.partition], len(self.b.logs[tp.partition])
         return lo, hi
 
